@@ -363,6 +363,20 @@ fn battery() -> Vec<Case> {
     ] {
         v.push(Case::TruncText { text: t.to_string(), q: d });
     }
+    // nests as deep as the reader accepts (measured), truncated at every byte:
+    // an input that ends right at the limit is incomplete, not too deep
+    {
+        let limit = (1..=400usize).take_while(|k| lexpr::from_str(&format!("{}0{}", "(".repeat(*k), ")".repeat(*k))).is_ok()).last().unwrap_or(1);
+        for inner in ["()", "( )", "a", "\"s\"", "#u8(1)", "#t", "1.5"] {
+            for (open, close) in [("(", ")"), ("#(", ")"), ("(a ", ")")] {
+                for depth in [limit.saturating_sub(1), limit] {
+                    v.push(Case::TruncText { text: format!("{}{}{}", open.repeat(depth), inner, close.repeat(depth)), q: d });
+                }
+            }
+        }
+        v.push(Case::TruncText { text: format!("{}(){}", "[".repeat(limit), "]".repeat(limit)), q: d });
+        v.push(Case::TruncText { text: format!("{}nil{}", "(".repeat(limit), ")".repeat(limit)), q: e });
+    }
     // every character name of R6RS, R7RS and the usual dialect extensions, bare
     // and inside a list and a vector: the ones the reader accepts are
     // truncated at every byte
